@@ -54,25 +54,47 @@ func Verif_C01_threshold() {
 	err := b.accept()
 
 	verifAssert(err == nil || err == ErrServiceUnavailable, "accept returns nil or ErrServiceUnavailable")
-	excess := 2*(tot-5) > 3*acc // (total-5) > 1.5*successes over the integers
+	verifAssert(verifCoinCalls <= 1, "at most one random draw per decision")
 	if err != nil {
-		verifAssert(excess, "rejected only when (total-5) exceeds 1.5 x successes")
-		verifAssert(verifCoinCalls == 1, "a rejection is the outcome of exactly one random draw")
+		// (total-5) > 1.5*successes over the integers; equivalently: no excess => admitted for every u
+		verifAssert(2*(tot-5) > 3*acc, "rejected only when (total-5) exceeds 1.5 x successes")
+		verifAssert(verifCoinCalls == 1, "a rejection is the outcome of a random draw")
 		verifReach("rejected")
 		return
 	}
-	if !excess {
-		verifReach("admitted-no-excess")
+	if verifCoinCalls == 0 {
+		verifReach("admitted-without-draw")
+	} else {
+		verifReach("admitted-by-draw")
+	}
+}
+
+// H01a2: a dependency that only fails (accepts = 0): every draw u below
+// 1 - 7/(total+1) is rejected (the exact dropRatio is 1 - 6/(total+1); one unit
+// of slack so that float rounding can never make the check over-demand).
+func Verif_C01_onlyFailures() {
+	maxTotal := int64(verifParam("maxTotal"))
+	tot := verifInt64("total")
+	verifAssume(tot >= 0)
+	verifAssume(tot < maxTotal)
+	u := verifFloat64("u")
+	verifAssume(u >= 0)
+	verifAssume(u < 1)
+	verifAcc, verifTot, verifU = 0, tot, u
+
+	b := newGoogleBreaker()
+	err := b.accept()
+
+	if err != nil {
+		verifAssert(err == ErrServiceUnavailable, "rejection is ErrServiceUnavailable")
+		verifReach("rejected")
 		return
 	}
-	// admitted although there is an excess: only by the draw, u >= dropRatio
-	verifAssert(verifCoinCalls == 1, "failure excess: admission is decided by the random draw")
-	verifAssert(!(u < verifLastP), "failure excess: admitted only when the draw is not below dropRatio")
-	if acc == 0 {
-		// a dependency that only fails: dropRatio = 1 - 6/(total+1); one unit of slack for rounding
-		verifAssert(verifLastP >= 1-7/float64(tot+1), "only failures: dropRatio >= 1 - 7/(total+1)")
-		verifAssert(verifLastP <= 1, "dropRatio is a probability")
-		verifReach("admitted-only-failures")
+	verifAssert(!(u < 1-7/float64(tot+1)), "only failures: admitted only if the draw is at least 1 - 7/(total+1)")
+	if verifCoinCalls == 0 {
+		verifAssert(tot <= 5, "only failures: more than 5 outcomes always consult the draw")
+		verifReach("admitted-without-draw")
+	} else {
+		verifReach("admitted-by-draw")
 	}
-	verifReach("admitted-by-draw")
 }
